@@ -6,7 +6,7 @@ import verus_be, kanix_be
 name = sys.argv[1]
 pos = [a for a in sys.argv[2:] if not a.startswith("-")]
 root = pos[0] if pos else "/repo"
-d = "/verif/contracts/" + name
+d = os.environ.get("VERIF_CONTRACTS", "/verif/contracts") + "/" + name
 u = json.load(open(d + "/unit.json")); u["dir"] = d; u["name"] = name
 r = verus_be.run_unit(u, root, "/var/tmp/vp/w") if u["backend"] == "verus" else kanix_be.run_unit(u, root, "/var/tmp/vp/w", "thorough" if "-t" in sys.argv else "quick")
 print(r["status"], r["reason"]); print(r.get("detail", "")[:6000])
